@@ -178,6 +178,31 @@ func checkC14(e *Engine, r *Report) {
 		}
 	}
 
+	// ---- S6: constant indexing/slicing ---------------------------------------------
+	{
+		bc := &boundsCtx{e: e}
+		nb := 0
+		for _, fn := range scope {
+			for _, bs := range boundsSites(fn) {
+				if !parsedInputSeq(bs.X) {
+					continue // only strings and pieces of split strings (parsed input) are in scope
+				}
+				nb++
+				got := bc.minLenAt(bs.X, bs.In, 0)
+				key := fmt.Sprintf("S6:bounds@%s#%s", FnName(fn), shortWhat(bs.What))
+				why, allowed := c14BoundsAllow[FnName(TopParent(fn))+"#"+bs.What]
+				ok := got >= bs.Need || allowed
+				w := fmt.Sprintf("proven minimal length %d, needed %d", got, bs.Need)
+				if allowed && got < bs.Need {
+					w = "reviewed: " + why
+				}
+				r.add(&Obligation{Key: key, Rule: "S6 constant bounds", What: bs.What + " on a string/slice must be covered by a proven minimal length (construction or dominating length test)",
+					Pos: e.InstrPos(bs.In), Fn: FnName(fn), Verdict: map[bool]Verdict{true: Discharged, false: Violated}[ok], Witness: w, Nontrivial: true})
+			}
+		}
+		r.MinInstances("constant index/slice sites on parsed input examined", nb, 4)
+	}
+
 	// ---- S7 -----------------------------------------------------------------------
 	allowed := map[string]string{}
 	for _, a := range c14ExitAllow {
@@ -252,4 +277,34 @@ var c14ExitAllow = [][2]string{
 	{"(*cmd/plugins/topology-aware/policy.grant).UnmarshalJSON#MustParse", "parses the exclusive cpuset the policy itself serialised into its cache entry"},
 	{"(*pkg/resmgr/cache.cache).GetPolicyEntry#log.Fatal", "fails only on a corrupt policy entry that the plugin itself marshalled; not influenced by requests or annotations"},
 	{"(*pkg/resmgr/cache.cache).checkPerm#log.Panic", "guards a programming error in the constant permission tables (non-permission bits), independent of input"},
+}
+
+// c14BoundsAllow: constant index/slice sites whose minimal length is guaranteed
+// by something this rule does not model, reviewed one by one.
+// {function#site description: reason}
+var c14BoundsAllow = map[string]string{}
+
+// parsedInputSeq: x is a string, or a slice produced by splitting a string.
+func parsedInputSeq(x ssa.Value) bool {
+	if b, ok := x.Type().Underlying().(*types.Basic); ok && b.Info()&types.IsString != 0 {
+		return true
+	}
+	found := false
+	Origins(x, func(v ssa.Value) bool {
+		if call, ok := v.(*ssa.Call); ok {
+			if f := call.Common().StaticCallee(); f != nil {
+				switch f.String() {
+				case "strings.Split", "strings.SplitN", "strings.Fields", "strings.SplitAfter", "strings.FieldsFunc":
+					found = true
+				}
+			}
+		}
+		if sl, ok := v.(*ssa.Slice); ok {
+			if parsedInputSeq(sl.X) && sl.X != x {
+				found = true
+			}
+		}
+		return false
+	})
+	return found
 }
